@@ -172,13 +172,14 @@ def _peel_casts(n):
         return n
 
 
-def _check_bounded_copy(F, R, f, p, len_ids=None, nonzero=False, depth=0, entry=None):
+def _check_bounded_copy(F, R, f, p, len_ids=None, nonzero=False, depth=0, entry=None, classes=None):
     """every write through buffer parameter p of f is bounded by len-1 (interprocedural: the buffer may be
     handed to a repo helper together with its length)"""
     S = Struct(f)
     entry = entry or f
     if len_ids is None:
         len_ids = [q["id"] for q in f["params"] if _unq(q["t"]) in ("unsigned int", "unsigned long", "int", "unsigned")]
+    classes = classes or {}        # parameter id -> 'idx' (<= len-1) / 'cnt' (<= len): limits computed by the caller
     uses = _uses(f["body"], p["id"])
     writes = 0
     inst0 = "%s(%s)" % (entry["name"], p["name"]) + ("" if entry is f else " via " + f["name"])
@@ -202,6 +203,8 @@ def _check_bounded_copy(F, R, f, p, len_ids=None, nonzero=False, depth=0, entry=
             a, b = strip_all(e["c"][0]), strip_all(e["c"][1])
             if b.get("k") == "IntegerLiteral" and b.get("v") == "1" and a.get("k") == "DeclRefExpr" and a.get("id") in len_ids:
                 return "idx" if guarded_nonzero(node) else "wrap"
+        if k == "DeclRefExpr" and e.get("id") in classes:
+            return classes[e["id"]]
         if k == "DeclRefExpr" and e.get("id") in len_ids:
             return "cnt"
         if k == "DeclRefExpr" and e.get("rk") == "Var":
@@ -284,6 +287,26 @@ def _check_bounded_copy(F, R, f, p, len_ids=None, nonzero=False, depth=0, entry=
                 writes += 1
                 _check_bounded_copy(F, R, g, g["params"][pos[0]], [g["params"][i]["id"] for i in lens],
                                     guarded_nonzero(par), depth + 1, entry)
+                continue
+            # the helper receives a limit computed here (`len - 1`, `len`, min(...)): classify it at the call site
+            lim = {}
+            wrapped = False
+            for i, a in enumerate(args):
+                if i in pos:
+                    continue
+                b_ = bound(a, par)
+                if b_ == "wrap":
+                    wrapped = True
+                elif b_ in ("idx", "cnt"):
+                    lim[g["params"][i]["id"]] = b_
+            if pos and wrapped and len(g["params"]) == len(args):
+                writes += 1
+                R.fail("X2", inst0 + " limit passed to " + g["name"].split("::")[-1], F.loc(f, par),
+                       "`len - 1` wraps around for len == 0: no dominating `len == 0` early return", key="X2|%s|len0" % entry["name"])
+                continue
+            if pos and lim and len(g["params"]) == len(args):
+                writes += 1
+                _check_bounded_copy(F, R, g, g["params"][pos[0]], [], True, depth + 1, entry, classes=lim)
                 continue
         R.broken("X2: unrecognised use of caller buffer %s in %s at line %s (%s)" % (p["name"], f["name"],
                                                                                       par.get("l"), k))
